@@ -1112,6 +1112,58 @@ package leveldb
 //@   safety off
 //@   ensures [C07,C08,C11:the-file-handle-is-spent-after-close-whatever-it-returned] w.w == nil
 
+// C04 / C06: the manifest record format, writer and reader side by side. Each field goes out as its tag followed by
+// its own values, in the order the reader takes them back: the journal number under the journal tag, the next file
+// number and the sequence number under theirs, a deleted table as (level, number), an added table as (level, number,
+// size, smallest key, largest key); the reader hands each group to the setter of the same tag. (A number written under
+// another field's tag, or two values swapped, would come back as a different version after every reopen.)
+//@ func (*sessionRecord).encode
+//@   props C04 C06
+//@   safety off
+//@   at before call (*sessionRecord).putUvarint#2
+//@     assert [C04,C06:journal-number-under-its-tag] arg1 == recJournalNum
+//@   at before call (*sessionRecord).putVarint#1
+//@     assert [C04,C06:journal-number-under-its-tag] arg1 == p.journalNum
+//@   at before call (*sessionRecord).putUvarint#3
+//@     assert [C04,C06:next-file-number-under-its-tag] arg1 == recNextFileNum
+//@   at before call (*sessionRecord).putVarint#2
+//@     assert [C04,C06:next-file-number-under-its-tag] arg1 == p.nextFileNum
+//@   at before call (*sessionRecord).putUvarint#4
+//@     assert [C04,C06:sequence-number-under-its-tag] arg1 == recSeqNum
+//@   at before call (*sessionRecord).putUvarint#5
+//@     assert [C04,C06:sequence-number-under-its-tag] arg1 == p.seqNum
+//@   at before call (*sessionRecord).putUvarint#8
+//@     assert [C04,C06:deleted-table-as-level-and-number] arg1 == recDelTable
+//@   at before call (*sessionRecord).putUvarint#9
+//@     assert [C04,C06:deleted-table-as-level-and-number] arg1 == uint64(r.level)
+//@   at before call (*sessionRecord).putVarint#3
+//@     assert [C04,C06:deleted-table-as-level-and-number] arg1 == r.num
+//@   at before call (*sessionRecord).putUvarint#10
+//@     assert [C04,C06:added-table-as-level-number-size-and-bounds] arg1 == recAddTable
+//@   at before call (*sessionRecord).putUvarint#11
+//@     assert [C04,C06:added-table-as-level-number-size-and-bounds] arg1 == uint64(r.level)
+//@   at before call (*sessionRecord).putVarint#4
+//@     assert [C04,C06:added-table-as-level-number-size-and-bounds] arg1 == r.num
+//@   at before call (*sessionRecord).putVarint#5
+//@     assert [C04,C06:added-table-as-level-number-size-and-bounds] arg1 == r.size
+//@   at before call (*sessionRecord).putBytes#3
+//@     assert [C04,C06:added-table-as-level-number-size-and-bounds] sameslice(arg1, r.imin)
+//@   at before call (*sessionRecord).putBytes#4
+//@     assert [C04,C06:added-table-as-level-number-size-and-bounds] sameslice(arg1, r.imax)
+//@ func (*sessionRecord).decode
+//@   props C04 C06
+//@   safety off
+//@   at before call (*sessionRecord).setJournalNum#1
+//@     assert [C04,C06:the-journal-tag-sets-the-journal-number] rec == recJournalNum && arg0 == x
+//@   at before call (*sessionRecord).setNextFileNum#1
+//@     assert [C04,C06:the-next-file-tag-sets-the-next-file-number] rec == recNextFileNum && arg0 == x
+//@   at before call (*sessionRecord).setSeqNum#1
+//@     assert [C04,C06:the-sequence-tag-sets-the-sequence-number] rec == recSeqNum && arg0 == x
+//@   at before call (*sessionRecord).addTable#1
+//@     assert [C04,C06:an-added-table-comes-back-as-level-number-size-and-bounds] rec == recAddTable && arg0 == level && arg1 == num && arg2 == size && sameslice(arg3, imin) && sameslice(arg4, imax)
+//@   at before call (*sessionRecord).delTable#1
+//@     assert [C04,C06:a-deleted-table-comes-back-as-level-and-number] rec == recDelTable && arg0 == level && arg1 == num
+
 // C07 / C03: installing a version. The new version is taken hold of BEFORE the current one is let go (the files both
 // list must not drop to zero references in between), the delta handed to the reference loop lists exactly the tables
 // the record adds and deletes, and afterwards the session's current version is the new one.
